@@ -153,6 +153,9 @@ def same(a, b):
     return a == b and type(a) is type(b)
 
 
+SEND_FAULTS = ["eintr", "partial_eintr", "eagain", "partial_eagain", "timeout", "oserror"]
+
+
 class C03(Prop):
     id = "C03"
     level = "exploration"
@@ -226,6 +229,8 @@ class C03(Prop):
             "calls": st.lists(call, min_size=1, max_size=6),
             "keys": st.lists(key, min_size=6, max_size=6),
             "deflate": gen.deflate_opt(),
+            # the socket write of the last call is interrupted / would block (before or after part of it went out)
+            "send_fault": gen.weighted([(6, st.none()), (1, st.sampled_from(SEND_FAULTS))]),
             # the application has switched on DEBUG logging for the library
             "debug_log": gen.debug_log(),
             # an earlier connection in this process (same WebSocket object or another) and how it ended
@@ -307,7 +312,20 @@ class C03(Prop):
                                                                      ["rep", n, n + i])} for i, n in enumerate(seq)],
                                        "keys": FIXED_KEYS[:1] * 6, "deflate": cfg}
         from harness.runner import with_debug_log
-        return [Enumeration("length_sweep_x_4_keys", sweep, exhaustive=True), after_every_prelude(battery), with_debug_log(battery),
+        def failing_writes():
+            for how in SEND_FAULTS:
+                for cfg in (False, True):
+                    for kind in ("send_text", "send_binary", "send_ping", "send_json"):
+                        for n in (0, 5, 125, 126, 70000):
+                            if kind == "send_ping" and n > 125:
+                                continue
+                            last = {"m": kind, "arg": ["ascii", n, n] if kind == "send_text" else ["rand", n, n]}
+                            if kind == "send_json":
+                                last = {"m": "send_json", "obj": {"k": "v" * n}}
+                            yield {"calls": [{"m": "send_text", "arg": ["str", "before"]}, last], "keys": FIXED_KEYS[:1] * 6,
+                                   "deflate": cfg, "send_fault": how}
+        return [Enumeration("length_sweep_x_4_keys", sweep, exhaustive=True), after_every_prelude(battery),
+                Enumeration("the_socket_write_of_a_call_fails", failing_writes, exhaustive=True), with_debug_log(battery),
                 Enumeration("deflate_message_orders", deflate_orders, exhaustive=True),
                 Enumeration("one_complete_frame_per_call_while_another_thread_writes", scheduled, exhaustive=True),
                 Enumeration("special_code_points_round_trip", special_texts, exhaustive=True),
@@ -332,10 +350,17 @@ class C03(Prop):
             if ev.name != "ready":
                 return
             sim = tr.sim
-            for call in calls:
+            for ci, call in enumerate(calls):
                 before_log = len(sim.log)
                 before_mask = sim.mask_i
                 rec = {"call": call}
+                if case.get("send_fault") and ci == len(calls) - 1:
+                    # the socket write of the LAST call fails: interrupted / would block, before anything went out or
+                    # after part of the frame did (nothing follows, so a torn frame cannot be mistaken for a later one)
+                    att = sim.attempt()
+                    if att is not None:
+                        att.setdefault("faults", {})["send"] = {str(sim.op_counts.get("send", 0)): case["send_fault"]}
+                        rec["faulted"] = case["send_fault"]
                 try:
                     arg, keep = perform(ws, call)
                     rec["exc"] = None
@@ -396,6 +421,23 @@ class C03(Prop):
                     return failed("write_after_close", what + ": after close(): exc=%r wrote=%d bytes" % (exc, len(wrote)),
                                   labels, nontrivial)
                 continue
+            if rec.get("faulted") and exc is not None:
+                # the write failed and the call said so: not an accepted call (whatever part of the frame went out)
+                from lomond.errors import WebSocketError
+                if not isinstance(exc, WebSocketError):
+                    return failed("send_error_not_websocket_error", what + ": socket write failed (%s), the call raised %r" % (
+                        rec["faulted"], exc), labels, True)
+                labels.add("write_failed:" + rec["faulted"])
+                nontrivial = True
+                continue
+            if rec.get("faulted") and call["m"] == "close":
+                # close() reports no transport trouble (C09: the library swallows it): nothing more to check here
+                labels.add("close_write_failed:" + rec["faulted"])
+                closing = True
+                continue
+            if rec.get("faulted"):
+                # the write failed but the call returned normally: then exactly one complete frame must be there
+                labels.add("write_failed_but_call_returned:" + rec["faulted"])
             if exc is not None:
                 return failed("valid_call_raised", what + ": raised %r" % (exc,), labels, nontrivial)
             frames, problems = wire.decode_client_frames(wrote)
